@@ -1,6 +1,18 @@
-"""C04 — judged on recorded runs of the real mediator by TraceEcmc.tla (checks/runlevel.py)."""
+"""C04 — thinning.  T: thinned events of recorded runs judged by TraceEcmc.tla (confirmation rule, no-op on rejection, bound
+positive, confirmation rate = proposal rate, domination on visited separations);  T: both potentials evaluated by the real
+classes on a lattice of the minimum-image cube (faces, edges, geometric refinement) judged by TraceDomination.tla."""
+import json
+
 from checks import runlevel
+from harness import opcheck
+from harness.build import Scratch, run_py
 
 
 def run(chk):
-    runlevel.run_for(chk, "C04")
+    chk.assumptions.append("domination is decided on the lattice points and on the separations visited by the recorded runs; "
+                           "the supremum over the continuum of separations is not decided by this technique")
+    with Scratch() as sc:
+        n = 4 if chk.tier == "quick" else 10
+        total = opcheck.key_trace(chk, sc, "TraceDomination", "harness.drive_domination", 0, [chk.seed, n], timeout=3000)
+        chk.notes["domination_lattice_points"] = total
+        runlevel.run_for(chk, "C04", sc)
